@@ -3,6 +3,7 @@ from __future__ import annotations
 
 import contextlib
 import io
+import json
 import os
 import shutil
 import subprocess
@@ -192,6 +193,32 @@ def py_issue(w, cfg, op, call):
         return ("ok", int(ret))
     except Exception as e:  # the contract is "rejected with an error": any type
         return ("err", "%s: %s" % (type(e).__name__, str(e)[:200]))
+
+
+def run_python_proc(cfg, ops, chdir, end, workdir):
+    """The ops through DigitalRFWriter in a process of its own whose END is the point (tools/py_writer_proc.py):
+    "atexit" - the script just ends with the writer alive at interpreter shutdown; "fork" - the writer is opened by the
+    process, a forked worker records and closes.  Returns the same list as run_python (getters are not available)."""
+    import subprocess
+    ovl = build.ensure(want=("py",))
+    os.makedirs(chdir, exist_ok=True)
+    cp, lp = os.path.join(workdir, "proc-case.json"), os.path.join(workdir, "proc-log.txt")
+    with open(cp, "w") as f:
+        json.dump({"cfg": cfg, "ops": ops}, f)
+    if os.path.exists(lp):
+        os.unlink(lp)
+    env = dict(os.environ, PYW_END=end, PYTHONWARNINGS="ignore")
+    p = subprocess.run([sys.executable, os.path.join(os.path.dirname(os.path.dirname(os.path.abspath(__file__))), "tools", "py_writer_proc.py"),
+                        ovl, cp, chdir, lp], env=env, stdout=subprocess.DEVNULL, stderr=subprocess.PIPE, timeout=300)
+    ends = {e[1]: e for e in parse_log(lp) if e[0] == "END"}
+    out = []
+    for i in range(len(ops)):
+        e = ends.get(i + 1)
+        out.append({"status": "ok" if e and e[2] == 0 else "err", "ret": e[3] if e else "no END line (rc=%s %s)" % (p.returncode, p.stderr.decode(errors="replace")[-200:]), "get": None})
+    e = ends.get(len(ops) + 1)
+    ok = e is not None and e[2] == 0 and p.returncode == 0
+    out.append({"status": "closed" if ok else "close-failed", "ret": "rc=%s %s" % (p.returncode, p.stderr.decode(errors="replace")[-300:])})
+    return out
 
 
 _KEEPALIVE = []  # the writer object of the last "withexc" session: the caller's `as` variable outlives the with block
